@@ -96,6 +96,7 @@ func verifyFunc(p *Program, fn *ssa.Function, fc *FuncContract) (u *UnitResult) 
 		fr.vals[prm] = v
 		fr.params[prm.Name()] = v
 		fr.pointeeFacts(v, st, next0, 0)
+		fr.mapEntryFacts(v, st, next0, 0)
 		fr.inputs = append(fr.inputs, v.S)
 		u.paramConst[prm.Name()] = v.S
 		u.specVars[prm.Name()] = v
@@ -477,6 +478,29 @@ func (fr *frame) pointeeFacts(v T, st *state, next0 string, depth int) {
 		if _, isPtr := unalias(stt.Field(i).Type()).Underlying().(*types.Pointer); isPtr {
 			fr.pointeeFacts(vc.getField(obj, i), st, next0, depth+1)
 		}
+	}
+}
+
+// mapEntryFacts: the slices stored in a map parameter (or in a map field of a struct parameter) at entry were
+// allocated before the call, like everything else reachable from the arguments.
+func (fr *frame) mapEntryFacts(x T, st *state, next0 string, depth int) {
+	vc := fr.vc
+	if x.GT == nil || depth > 2 {
+		return
+	}
+	switch u := unalias(x.GT).Underlying().(type) {
+	case *types.Struct:
+		for i := 0; i < u.NumFields(); i++ {
+			fr.mapEntryFacts(vc.getField(x, i), st, next0, depth+1)
+		}
+	case *types.Map:
+		if _, ok := unalias(u.Elem()).Underlying().(*types.Slice); !ok {
+			return
+		}
+		ks, vs := vc.sortOf(u.Key()), vc.sortOf(u.Elem())
+		has := vc.mhas(ks, vc.heapGet(st, vc.heapDom(ks)), x.S, "k")
+		raw := vc.mval(ks, vs, vc.heapGet(st, vc.heapVal(ks, vs)), x.S, "k")
+		vc.assume("true", fmt.Sprintf("(forall ((k %s)) (! (=> %s (and (<= 0 (s_arr %s)) (< (s_arr %s) %s))) :pattern (%s)))", ks, has, raw, raw, next0, raw))
 	}
 }
 
